@@ -1,10 +1,13 @@
 # C05 - transcoders and encoding detection
 CLAIMS = {
+ 'utf8_encode': 'XMLUTF8Transcoder::transcodeTo for every source of <= N units (ill-formed included), srcCount, maxBytes <= 6, both options: never writes at or behind toFill+maxBytes; for well-formed input bytes = UTF-8 of the longest fitting prefix of whole characters, exact counts',
  'utf8_decode': 'XMLUTF8Transcoder::transcodeFrom (real object, real ctor, vtable call): for every byte string of length <= N, srcCount <= N, maxChars <= N: '
                 'throws iff the next complete sequence is ill-formed per Unicode Table 3-7, otherwise output/charSizes/bytesEaten equal the reference decoder',
 }
 ASSUMPTIONS = ['XMLException message loading is cut (code recorded only)', 'MemoryManager stub returns fresh non-null blocks']
 HARNESSES = [
+ dict(name='utf8_encode', entry='harness_utf8_encode', srcs=['C05/utf8_encode.cpp'], tus=['util/XMLUTF8Transcoder.cpp'],
+      defs={'quick': {'N': 3}, 'thorough': {'N': 4}}, unwind={'quick': 12, 'thorough': 12}, timeout={'quick': 600, 'thorough': 1500}),
  dict(name='utf8_decode', entry='harness_utf8_decode', srcs=['C05/utf8_decode.cpp'], tus=['util/XMLUTF8Transcoder.cpp'],
       defs={'quick': {'N': 4}, 'thorough': {'N': 6}}, unwind={'quick': 'N+2', 'thorough': 'N+2'}, timeout={'quick': 300, 'thorough': 1500}),
 
